@@ -79,6 +79,8 @@ Fixpoint fixed_width (t : ty) : option nat :=
   | TBool => Some 1%nat
   | TInt _ w => Some w
   | TReal dbl => Some (if dbl then 8 else 4)%nat
+  | TDateTime => Some 6%nat
+  | TNBytes n => if 0 <=? n then Some (Z.to_nat n) else None
   | TBits w => Some w
   | TFixedStr size _ lw _ => Some (lw + size)%nat
   | TIPAddr => Some 4%nat
@@ -92,8 +94,9 @@ Fixpoint fixed_width (t : ty) : option nat :=
    at least one byte: what Array(None, T) needs of its element type *)
 Fixpoint consumes (t : ty) : bool :=
   match t with
-  | TBool | TReal _ | TStringN | TStringI | TIPAddr => true
+  | TBool | TReal _ | TDateTime | TStringN | TStringI | TIPAddr => true
   | TInt _ w | TBits w => (0 <? w)%nat
+  | TNBytes n => 0 <? n
   | TStr _ lw _ => (0 <? lw)%nat
   | TFixedStr _ _ lw _ => (0 <? lw)%nat
   | TArrFixed n e => (0 <? n)%nat && consumes e
@@ -106,9 +109,10 @@ Fixpoint consumes (t : ty) : bool :=
    from whatever the bit members wrote) *)
 Fixpoint always_decodes (t : ty) : bool :=
   match t with
-  | TBool | TReal _ | TIPAddr => true
+  | TBool | TReal _ | TDateTime | TIPAddr => true
   | TInt _ w | TBits w => (0 <? w)%nat
-  | TArrFixed n e => always_decodes e && negb (is_instance e)
+  | TNBytes n => 0 <=? n
+  | TArrFixed n e => always_decodes e
   | _ => false
   end.
 
@@ -127,6 +131,19 @@ Fixpoint bitpos_nodup (l : list (nat * nat)) : bool :=
   | (o, b) :: r => negb (existsb (fun p => (fst p =? o)%nat && (snd p =? b)%nat) r) && bitpos_nodup r
   end.
 
+(* members anywhere inside [size], pairwise disjoint, in ANY order (each is read after a seek) *)
+Definition ext_disjoint (a b : nat * option nat) : bool :=
+  match a, b with
+  | (o1, Some w1), (o2, Some w2) => (o1 + w1 <=? o2)%nat || (o2 + w2 <=? o1)%nat
+  | _, _ => false
+  end.
+Fixpoint extents_ok (l : list (nat * option nat)) (size : nat) : bool :=
+  match l with
+  | [] => true
+  | e :: r => match e with (o, Some w) => (o + w <=? size)%nat | _ => false end
+              && forallb (ext_disjoint e) r && extents_ok r size
+  end.
+
 Definition stag_layout (ms : list ((key * nat) * ty)) : list (nat * option nat) :=
   map (fun m => (snd (fst m), fixed_width (snd m))) ms.
 Definition stag_visible_extents (ms : list ((key * nat) * ty)) (priv : list text) : list (nat * option nat) :=
@@ -136,23 +153,23 @@ Definition struct_kind_ok (k : skind) : bool := match k with SListIdentity => fa
 
 Fixpoint wf_ty (t : ty) : bool :=
   match t with
-  | TBool | TReal _ | TStringN | TStringI | TIPAddr | TPcccAscii | TPcccString => true
+  | TBool | TReal _ | TDateTime | TStringN | TStringI | TIPAddr | TPcccAscii | TPcccString => true
   | TInt _ w | TBits w => (0 <? w)%nat
-  | TDateTime => false                       (* T.encode(value) always raises: two positional arguments *)
   | TStr _ lw _ => (0 <? lw)%nat
-  | TNBytes n => (n =? -1) || (0 <? n)
-  | TArrFixed n e => wf_ty e && negb (is_instance e) && negb (greedy e)
-  | TArrPrefix _ _ _ => false                (* decode always raises: range(_length) on a type *)
-  | TArrAll e => wf_ty e && negb (is_instance e) && negb (greedy e) && negb (is_bits e) && consumes e
+  | TNBytes n => -1 <=? n
+  | TArrFixed n e => wf_ty e && negb (greedy e)
+  | TArrPrefix _ _ _ => false                (* encode writes no length prefix (documented): decode (encode v) would
+                                                read the first element as the count; see roundtrip_prefixed *)
+  | TArrAll e => wf_ty e && negb (greedy e) && consumes e
   | TStruct k ms =>
       struct_kind_ok k
       && forallb (fun m => wf_ty (snd m)) ms
       && initb (fun m => negb (greedy (snd m))) ms
       && keys_nodup (filter (fun k => negb (unnamed k)) (map fst ms))
-  | TFixedStr size _ lw _ => (0 <? size)%nat && (0 <? lw)%nat
+  | TFixedStr size _ lw _ => (0 <? lw)%nat
   | TStructTag ms bits priv size =>
       forallb (fun m => wf_ty (snd m) && negb (greedy (snd m))) ms
-      && layout_ok 0 (stag_layout ms) size
+      && extents_ok (stag_layout ms) size
       && keys_nodup (map (fun m => fst (fst m)) ms ++ map (fun b => Some (fst b)) bits)
       && forallb (fun m => negb (key_in (fst (fst m)) priv) || always_decodes (snd m)) ms
       && forallb (fun b => negb (mem_text (fst b) priv)
@@ -174,10 +191,20 @@ Definition real_dom (dbl : bool) (b : Z) : bool :=
 Definition real_norm (dbl : bool) (b : Z) : Z :=
   if dbl then b else match round32 b with Some s => widen32 s | None => b end.
 
+(* the text codec inverts on [s], to a whole number of code units: Latin-1 text below U+0100,
+   UTF-16 text of scalar values (Proofs/CodecRTBase.v: latin1_inverts, utf16_inverts) *)
+Definition codec_inverts (e : tenc) (s : text) : bool :=
+  match text_encode e s with
+  | Ok d => (zlen d mod enc_char_size e =? 0)
+            && match text_decode e d with Ok s' => text_eqb s' s | Err _ => false end
+  | Err _ => false
+  end.
+Definition code_units (e : tenc) (s : text) : Z :=
+  match text_encode e s with Ok d => zlen d / enc_char_size e | Err _ => 0 end.
 Definition str_dom (lsg : bool) (lw : nat) (e : tenc) (s : text) : bool :=
-  int_in_range lsg lw (zlen s) && forallb (single_byte e) s.
+  codec_inverts e s && int_in_range lsg lw (code_units e s).
 Definition stringn_dom (s : text) : bool :=
-  match s with [] => false | _ => in_urange 2 (zlen s) && forallb (single_byte Utf8) s end.
+  in_urange 2 (zlen s) && forallb (single_byte Latin1) s.
 
 (* the domain of a string type class named in a STRINGI item *)
 Definition named_str_dom (n : text) (s : text) : bool :=
@@ -224,7 +251,7 @@ Fixpoint norm (t : ty) (v : val) : val :=
       | VList l => match e with TBits _ => v | _ => VList (map (norm e) (firstn n l)) end
       | _ => v
       end
-  | TArrAll e => match v with VList l => VList (map (norm e) l) | _ => v end
+  | TArrAll e => match v with VList l => match e with TBits _ => v | _ => VList (map (norm e) l) end | _ => v end
   | TStruct k ms =>
       let plain := fun v' =>
         match v' with
@@ -264,7 +291,10 @@ Fixpoint in_dom (t : ty) (v : val) : bool :=
   | TBool => is_vbool v
   | TInt sg w => match v with VInt z => int_in_range sg w z | _ => false end
   | TReal dbl => match v with VFloat b => real_dom dbl b | _ => false end
-  | TDateTime => false
+  | TDateTime => match v with
+                 | VTuple [VInt time; VInt date] => in_urange 4 time && in_urange 2 date
+                 | _ => false
+                 end
   | TStr lsg lw e => match v with VStr s => str_dom lsg lw e s | _ => false end
   | TStringN => match v with VStr s => stringn_dom s | _ => false end
   | TStringI => stringi_item_dom v
@@ -283,7 +313,14 @@ Fixpoint in_dom (t : ty) (v : val) : bool :=
       | _ => false
       end
   | TArrPrefix _ _ _ => false
-  | TArrAll e => match v with VList l => forallb (in_dom e) l | _ => false end
+  | TArrAll e =>
+      match v with
+      | VList l => match e with
+                   | TBits w => (zlen l mod (8 * Z.of_nat w) =? 0) && forallb is_vbool l
+                   | _ => forallb (in_dom e) l
+                   end
+      | _ => false
+      end
   | TStruct k ms =>
       let plain := fun v' =>
         match v' with
@@ -338,11 +375,11 @@ Fixpoint in_dom (t : ty) (v : val) : bool :=
 Definition encodable (e : tenc) (s : text) : bool :=
   match text_encode e s with Ok _ => true | Err _ => false end.
 Definition doc_str_dom (lsg : bool) (lw : nat) (e : tenc) (s : text) : bool :=
-  (0 <? lw)%nat && int_in_range lsg lw (zlen s) && encodable e s.
+  (0 <? lw)%nat && int_in_range lsg lw (code_units e s) && encodable e s.
 Definition doc_named_str_dom (n : text) (s : text) : bool :=
   match ty_of_name n with
   | Some (TStr a b c) => doc_str_dom a b c s
-  | Some TStringN => in_urange 2 (zlen s) && forallb (single_byte Utf8) s
+  | Some TStringN => in_urange 2 (zlen s) && forallb (single_byte Latin1) s
   | _ => false
   end.
 Definition is_int_type (t : ty) : option (bool * nat) := match t with TInt sg w => Some (sg, w) | _ => None end.
@@ -376,7 +413,7 @@ Fixpoint doc_wf (t : ty) : bool :=
       (* a template: members at increasing non-overlapping offsets inside [size], hidden members of
          plain integer / bit-string kind, BOOL members in hidden hosts or padding, distinct names *)
       forallb (fun m => doc_wf (snd m) && negb (greedy (snd m))) ms
-      && layout_ok 0 (stag_layout ms) size
+      && extents_ok (stag_layout ms) size
       && keys_nodup (map (fun m => fst (fst m)) ms ++ map (fun b => Some (fst b)) bits)
       && forallb (fun m => negb (key_in (fst (fst m)) priv) || always_decodes (snd m)) ms
       && forallb (fun b => negb (mem_text (fst b) priv)
@@ -400,7 +437,7 @@ Fixpoint doc_val (t : ty) (v : val) : bool :=
                  | _ => false
                  end
   | TStr lsg lw e => match v with VStr s => doc_str_dom lsg lw e s | _ => false end
-  | TStringN => match v with VStr s => in_urange 2 (zlen s) && forallb (single_byte Utf8) s | _ => false end
+  | TStringN => match v with VStr s => in_urange 2 (zlen s) && forallb (single_byte Latin1) s | _ => false end
   | TStringI =>
       match v with
       | VTuple [VStr s; VType n; VStr lang; VInt cs] =>
@@ -464,7 +501,7 @@ Fixpoint doc_val (t : ty) (v : val) : bool :=
   | TFixedStr size lsg lw cap =>
       (cap <=? size)%nat && match v with VStr s => doc_str_dom lsg lw Latin1 (firstn cap s) | _ => false end
   | TStructTag ms bits priv size =>
-      layout_ok 0 (stag_layout ms) size
+      extents_ok (stag_layout ms) size
       && keys_nodup (map (fun m => fst (fst m)) ms ++ map (fun b => Some (fst b)) bits)
       && forallb (fun b => (fst (snd b) <? size)%nat && (snd (snd b) <? 8)%nat) bits
       && match v with
